@@ -29,6 +29,7 @@ THEOREMS = [
     "PyTrie.Props.NonVacuity.set_refines_witness",
     "PyTrie.Props.NonVacuity.delete_refines_witness",
     "PyTrie.Props.NonVacuity.t1_storedD",
+    "PyTrie.Props.Raw.history_is_world_run",
 ]
 RULE = ("histories of set/setitem/set-to-empty/delete/delitem and squash_changes batches (committed and aborted) "
         "over crafted and random prefix-sharing key universes (empty key, prefixes, extensions, mid-path "
@@ -112,6 +113,7 @@ def run_case(case):
     r = hexlib.HexRunner(res, case["prune"], observe, raw_tie=True)
     r.run(case["ops"])
     check(r, "0", r.trie, r.model, probes, True)
+    r.finish_raw(list(probes)[:12])
     res.tags.add("prune" if case["prune"] else "noprune")
     res.nontrivial = len(r.model) >= 2
     res.state_key = common.sha([case["prune"], sorted((k.hex(), v.hex()) for k, v in r.model.items())])
